@@ -141,9 +141,18 @@ def main():
         c06.conformance(chk, inst, aut, ids, wit, apath, 25 if quick else 300)
     p = {'seed': chk.seed, 'bases': 15 if quick else 300, 'payloads': 10 if quick else 100, 'synth': 25 if quick else 400, 'skip_p2': bind.get('skip_p2', {})}
     units = []
+    gone = []
     for key, row in sorted(bind['rows'].items()):
         name = key.split(':')[0]
+        fn = key.split('#')[0].split(':')[1]
+        try:
+            if not callable(getattr(lib.module(name), fn)):
+                raise AttributeError(fn)
+        except (KeyError, AttributeError):
+            gone.append(key)
+            continue
         units.append((key, row, p, bind.get('validate_options', {}).get(name, {})))
+    chk.cov['bound_generators_no_longer_present'] = gone
     shards = chk.drive(units, worker)
     extra = run.merge_extra(shards)
     rej = chk.validate('Trace_CheckDigit', shards, own_clauses={'P1', 'P2', 'P3'})
